@@ -80,6 +80,45 @@ class _Rename(ast.NodeTransformer):
         return node
 
 
+class _ConstProp(ast.NodeTransformer):
+    def __init__(self, consts):
+        self.c = consts
+
+    def visit_Name(self, node):
+        if isinstance(node.ctx, ast.Load) and node.id in self.c:
+            return ast.copy_location(ast.Constant(value=self.c[node.id].value), node)
+        return node
+
+    def visit_FunctionDef(self, node):
+        return node
+
+    visit_Lambda = visit_AsyncFunctionDef = visit_FunctionDef
+
+
+class _Desugar(ast.NodeTransformer):
+    """getattr(x, "name") -> x.name ; statement setattr(x, "name", v) -> x.name = v ; f-string of constants folded"""
+
+    def visit_Call(self, node):
+        self.generic_visit(node)
+        if isinstance(node.func, ast.Name) and node.func.id == "getattr" and len(node.args) == 2 and not node.keywords and isinstance(node.args[1], ast.Constant) and isinstance(node.args[1].value, str) and node.args[1].value.isidentifier():
+            return ast.copy_location(ast.Attribute(value=node.args[0], attr=node.args[1].value, ctx=ast.Load()), node)
+        return node
+
+    def visit_Expr(self, node):
+        self.generic_visit(node)
+        c = node.value
+        if isinstance(c, ast.Call) and isinstance(c.func, ast.Name) and c.func.id == "setattr" and len(c.args) == 3 and not c.keywords and isinstance(c.args[1], ast.Constant) and isinstance(c.args[1].value, str) and c.args[1].value.isidentifier():
+            new = ast.Assign(targets=[ast.Attribute(value=c.args[0], attr=c.args[1].value, ctx=ast.Store())], value=c.args[2], type_comment=None)
+            return ast.copy_location(new, node)
+        return node
+
+    def visit_FunctionDef(self, node):
+        if getattr(self, "_top", None) is None:
+            self._top = node
+            self.generic_visit(node)
+        return node
+
+
 def _local_names(fn):
     out = set()
     a = fn.args
@@ -296,6 +335,14 @@ class Flattener:
         if mapping:
             ren = _Rename(mapping)
             body = [ren.visit(x) for x in body]
+        # constant arguments of parameters the helper never rebinds are propagated into the body
+        # (`attr = "_stdin"` ... `getattr(self, attr)` becomes `getattr(self, "_stdin")`)
+        rebound = {n.id for x in body for n in ast.walk(x) if isinstance(n, ast.Name) and isinstance(n.ctx, (ast.Store, ast.Del))}
+        consts = {mapping.get(p, p): e for p, e in binds if isinstance(e, ast.Constant) and mapping.get(p, p) not in rebound}
+        if consts:
+            cp = _ConstProp(consts)
+            body = [cp.visit(x) for x in body]
+            binds = [(p, e) for p, e in binds if mapping.get(p, p) not in consts]
         pre = []
         for p, e in binds:
             tgt = mapping.get(p, p)
@@ -373,6 +420,8 @@ class Flattener:
         new = clone(fn)
         used = {n.id for n in ast.walk(fn) if isinstance(n, ast.Name)} | _local_names(fn)
         new.body = self._stmts(new.body, mod, cls, used, self.depth, [fn], _local_names(fn))
+        if self.expanded:
+            new = _Desugar().visit(new)
         ast.fix_missing_locations(new)
         set_parents(new)
         new._xv_parent = getattr(fn, "_xv_parent", None)
